@@ -192,33 +192,33 @@ func lookupConstInt(c *an.Ctx, pkg, name string) *int64 {
 	return &v
 }
 
-// isLockedCutter returns a cut function that removes, for every If testing IsLocked() (possibly
-// negated) or `t == nil` on a roster lookup, the edge on which the task is "not owned" / absent.
-// What stays reachable is only reachable with an owned task.
-func ownedOnlyCut(fn *ssa.Function) (cut func(*ssa.BasicBlock, int) bool, tests int) {
-	type edge struct {
-		b *ssa.BasicBlock
-		i int
-	}
-	cutSet := map[edge]bool{}
-	for _, b := range fn.Blocks {
-		if v, trueIdx, ok := an.BoolCondEdge(b); ok {
-			if call, isCall := v.(*ssa.Call); isCall && an.MethodName(&call.Call) == "IsLocked" {
-				cutSet[edge{b, 1 - trueIdx}] = true // cut the "not locked" edge
-				tests++
-			}
+// ownedAssume is the assumption "the task is in the roster and owned by an environment": IsLocked() is true and a
+// roster lookup (GetTask / getByTaskId) is not nil. tests counts the values of fn the assumption decides.
+func ownedAssume(fn *ssa.Function) (assume func(ssa.Value) (bool, bool), tests int) {
+	decide := func(v ssa.Value) (bool, bool) {
+		if call, isCall := v.(*ssa.Call); isCall && an.MethodName(&call.Call) == "IsLocked" {
+			return true, true
 		}
-		if x, nilIdx, ok := an.NilCondEdge(b); ok {
-			if call, isCall := x.(*ssa.Call); isCall {
-				switch an.MethodName(&call.Call) {
-				case "GetTask", "getByTaskId":
-					cutSet[edge{b, nilIdx}] = true // cut the "not in roster" edge
-					tests++
+		if bo, ok := v.(*ssa.BinOp); ok && (bo.Op == token.EQL || bo.Op == token.NEQ) {
+			for _, pair := range [][2]ssa.Value{{bo.X, bo.Y}, {bo.Y, bo.X}} {
+				if call, isCall := pair[0].(*ssa.Call); isCall && an.IsNilConst(pair[1]) {
+					switch an.MethodName(&call.Call) {
+					case "GetTask", "getByTaskId":
+						return bo.Op == token.NEQ, true
+					}
 				}
 			}
 		}
+		return false, false
 	}
-	return func(b *ssa.BasicBlock, i int) bool { return cutSet[edge{b, i}] }, tests
+	an.Instrs(fn, func(in ssa.Instruction) {
+		if v, ok := in.(ssa.Value); ok {
+			if _, k := decide(v); k {
+				tests++
+			}
+		}
+	})
+	return decide, tests
 }
 
 // reconcileKill locates the reconciliation KILL: a calls.Kill in package core/task that is only reachable when
@@ -233,30 +233,21 @@ func reconcileKill(c *an.Ctx) (*ssa.Function, *ssa.Call) {
 		if !ok {
 			continue
 		}
-		if cut, n := reasonCut(c, s.Fn); n > 0 && !an.ReachableCut(s.Fn, call, cut) {
+		if as, n := reasonAssume(c, s.Fn); n > 0 && !an.FlowAssume(s.Fn.Blocks[0], as).Reaches(call) {
 			return s.Fn, call
 		}
 	}
 	return nil, nil
 }
 
-// reasonCut removes the edges on which "reason == RECONCILIATION" is established.
-func reasonCut(c *an.Ctx, fn *ssa.Function) (func(*ssa.BasicBlock, int) bool, int) {
-	type edge struct {
-		b *ssa.BasicBlock
-		i int
-	}
-	cut := map[edge]bool{}
-	n := 0
+// reasonAssume is the assumption "the status update's reason is NOT RECONCILIATION"; n counts the comparisons of fn
+// it decides.
+func reasonAssume(c *an.Ctx, fn *ssa.Function) (func(ssa.Value) (bool, bool), int) {
 	want := lookupConstInt(c, "github.com/mesos/mesos-go/api/v1/lib", "REASON_RECONCILIATION")
-	for _, b := range fn.Blocks {
-		v, trueIdx, ok := an.BoolCondEdge(b)
-		if !ok {
-			continue
-		}
+	decide := func(v ssa.Value) (bool, bool) {
 		bo, ok := v.(*ssa.BinOp)
 		if !ok || (bo.Op != token.EQL && bo.Op != token.NEQ) {
-			continue
+			return false, false
 		}
 		isRecon := false
 		for _, o := range []ssa.Value{bo.X, bo.Y} {
@@ -270,16 +261,19 @@ func reasonCut(c *an.Ctx, fn *ssa.Function) (func(*ssa.BasicBlock, int) bool, in
 			}
 		}
 		if !isRecon {
-			continue
+			return false, false
 		}
-		n++
-		if bo.Op == token.EQL {
-			cut[edge{b, trueIdx}] = true
-		} else {
-			cut[edge{b, 1 - trueIdx}] = true
-		}
+		return bo.Op == token.NEQ, true
 	}
-	return func(b *ssa.BasicBlock, i int) bool { return cut[edge{b, i}] }, n
+	n := 0
+	an.Instrs(fn, func(in ssa.Instruction) {
+		if v, ok := in.(ssa.Value); ok {
+			if _, k := decide(v); k {
+				n++
+			}
+		}
+	})
+	return decide, n
 }
 
 func r18cd(c *an.Ctx) {
@@ -336,20 +330,26 @@ func r18cd(c *an.Ctx) {
 	// nothing but the status message itself (reason, state, message kind) and the ownership lookup. A guard reading
 	// other core state (e.g. "a KILL was already requested once") lets an unowned task survive.
 	var extra []string
-	for _, g := range an.Guards(kill.Block()) {
+	seenPos := map[string]bool{}
+	for _, g := range an.ControlConds(kill.Block()) {
 		if g.LoopHeader || g.LoopExit {
 			continue
 		}
 		if !reconGuardAllowed(g.V, map[ssa.Value]bool{}) {
-			extra = append(extra, c.PosStr(condPos(g.V)))
+			p := c.PosStr(condPos(g.V))
+			if !seenPos[p] {
+				seenPos[p] = true
+				extra = append(extra, p)
+			}
 		}
 	}
+	sort.Strings(extra)
 	c.Ob(key+"|not-further-conditioned", kill.Pos(), len(extra) == 0, "the reconciliation KILL additionally depends on core state other than the ownership lookup (conditions at %v): when it does not hold, a task of the previous life that nothing owns is reported alive and is not killed (e.g. a first KILL that was lost is never repeated)", extra)
 
 	c.Rule("R18d", "the reconciliation KILL is unreachable for a task that is in the roster and owned by an environment", 1)
 	c.Subject()
-	cut, tests := ownedOnlyCut(fn)
-	reach := an.ReachableCut(fn, kill, cut)
+	as, tests := ownedAssume(fn)
+	reach := an.FlowAssume(fn.Blocks[0], as).Reaches(kill)
 	c.Ob(key+"|not-owned", kill.Pos(), !reach && tests > 0,
 		"the reconciliation KILL is reachable for a task that is in the roster and owned by a live environment (%d ownership tests on the way): implicit reconciliation is requested on every SUBSCRIBED, also after a mere reconnection, and Mesos then reports every non-terminal task of the framework, so all running tasks of all environments are killed", tests)
 }
@@ -397,6 +397,19 @@ func reconGuardAllowed(v ssa.Value, seen map[ssa.Value]bool) bool {
 			return reconGuardAllowed(x.X, seen)
 		}
 	case *ssa.Phi:
+		if x.Type().String() == "bool" && x.Comment != "&&" && x.Comment != "||" {
+			// a boolean variable assigned on several paths: every assigned condition must be allowed (the conditions
+			// selecting the path are control conditions of their own)
+			for _, e := range x.Edges {
+				if _, isC := e.(*ssa.Const); isC {
+					continue
+				}
+				if !reconGuardAllowed(e, seen) {
+					return false
+				}
+			}
+			return true
+		}
 		if x.Comment == "&&" || x.Comment == "||" {
 			for i, e := range x.Edges {
 				if _, isC := e.(*ssa.Const); isC {
